@@ -83,7 +83,7 @@ def _acc_len(n, acc):
     """Length of the accessed value (0 = scalar)."""
     if acc == "w":
         return n
-    if acc == "b":
+    if acc in ("b", "c"):
         return n - 1
     if acc == "t":
         return (n + 1) // 2
@@ -139,6 +139,8 @@ def make_graph(topo, tidx, variant, nsrc):
                 acc = ACCESS[(e + variant + tidx) % len(ACCESS)]
                 if variant >= 2 and (e + tidx) % 3 == 0:
                     acc = "w"
+                if acc == "b" and (e + tidx) % 2 == 0:
+                    acc = "c"       # the same entries through a slice of a slice
             e += 1
             ins.append([a, acc])
         il = [_acc_len(lens[a], acc) for a, acc in ins]
@@ -248,7 +250,7 @@ def _access_idx(n, acc):
     """Positions selected by an access kind in a vector of length n (plain lists)."""
     if acc == "w":
         return list(range(n))
-    if acc == "b":
+    if acc in ("b", "c"):
         return list(range(1, n))
     if acc == "t":
         return list(range(0, n, 2))
@@ -442,7 +444,10 @@ def build_network(g, srcvals, coefs):
     for k, m in enumerate(g["mods"]):
         ins = []
         for a, acc in m["inp"]:
-            ins.append(sigs[a] if acc == "w" else sigs[a][_access_obj(lens[a], acc)])
+            if acc == "c":      # chained: a SignalSlice whose base is a SignalSlice
+                ins.append(sigs[a][slice(None, None)][slice(1, None)])
+            else:
+                ins.append(sigs[a] if acc == "w" else sigs[a][_access_obj(lens[a], acc)])
         t = m["t"]
         nout = 2 if t == "PD" else 1
         outs = [pym.Signal("y%d" % (len(sigs) + o)) for o in range(nout)]
